@@ -2646,3 +2646,13 @@ package sarama
 //@   callsite packetEncoder.putInt16#2: requires[abort_is_type_0_after_the_version] $recv == key && cr.Type == ControlRecordAbort && $arg0 == 0 && key.offset() == old(key.offset()) + 2
 //@   callsite packetEncoder.putInt16#3: requires[commit_is_type_1_after_the_version] $recv == key && cr.Type == ControlRecordCommit && $arg0 == 1 && key.offset() == old(key.offset()) + 2
 //@   nosafety
+
+// (C13) sticky strategy, movement bookkeeping: a move is recorded as going from the partition's current owner to the
+// consumer it is given to (the reverse-movement protection that keeps partitions of a topic from swapping owners
+// pairwise reads these records), and the ownership map is updated to the new consumer.
+//@ func (s *stickyBalanceStrategy) processPartitionMovement(partition, newConsumer, currentAssignment, sortedCurrentSubscriptions, currentPartitionConsumer) props C13
+//@   returns r
+//@   requires currentPartitionConsumer != nil && currentAssignment != nil
+//@   callsite partitionMovements.movePartition: requires[recorded_from_the_current_owner_to_the_new_one] $partition == partition && $oldConsumer == old(currentPartitionConsumer[partition]) && $newConsumer == newConsumer
+//@   ensures[ownership_updated] currentPartitionConsumer[partition] == newConsumer
+//@   nosafety
